@@ -55,6 +55,7 @@ def run(ctx):
     ctx.do(rule_presence_by_membership, rule_id="C02.constraints")
     ctx.do(rule_definition_of_named_type)
     ctx.do(rule_integer_tests_exclude_bool)
+    ctx.do(rule_helpers_examine_every_pair)
     # timestamps are emitted with the digits their slot prescribes only if every value went through the truncation pipeline
     from . import C15
     ctx.do(C15.rule_truncate, rule_id="C02.timestamp-pipeline")
@@ -481,6 +482,31 @@ def rule_definition_of_named_type(ctx, rule_id="C02.constraints"):
                           slot, cname, cname), found=[t for t, _p in gc])
     if n < 2:
         raise AnalysisError("fewer than 2 marking-definition constructors found")
+
+
+def rule_helpers_examine_every_pair(ctx, rule_id="C02.constraints"):
+    """The co-constraint helpers of _STIXBase (_check_mutually_exclusive_properties, _check_at_least_one_property,
+    _check_properties_dependency) judge EVERY property / every (property, dependent) pair they are given: their loops have no
+    break and no return.  An early exit at the first pair that is fine lets a later, violated pair through -- the 2.0 file rule
+    (is_encrypted: encryption_algorithm, decryption_key) is then enforced for the first dependent only."""
+    run = ctx.run
+    prog = ctx.prog
+    base = prog.cls("stix2.base::_STIXBase")
+    n = 0
+    for name in ("_check_mutually_exclusive_properties", "_check_at_least_one_property", "_check_properties_dependency"):
+        fi = base.methods.get(name)
+        if fi is None:
+            raise AnalysisError("anchor missing: _STIXBase.%s" % name)
+        for lp in [x for x in body_walk(fi.node) if isinstance(x, (ast.For, ast.While))]:
+            n += 1
+            exits = [x for st_ in lp.body for x in ast.walk(st_) if isinstance(x, (ast.Break, ast.Return))]
+            run.check(not exits, rule_id, key(fi.module.relpath, fi.qualname, "examines-every-pair:%d" % n),
+                      "a loop of the co-constraint helper can be left early (%s): the pairs after the exit are never judged, so a "
+                      "violated dependency / exclusion among them is emitted" % ("break" if isinstance(exits[0], ast.Break) else "return")
+                      if exits else "", file=fi.module.relpath, line=exits[0].lineno if exits else lp.lineno, function=fi.qualname,
+                      expected="no break / return inside the loops", found=[short(x, 30) for x in exits])
+    if n < 2:
+        raise AnalysisError("fewer than 2 loops in the co-constraint helpers (%d)" % n)
 
 
 def rule_integer_tests_exclude_bool(ctx, rule_id="C02.constraints"):
